@@ -668,7 +668,7 @@ func substValues(orig byte, all bool) []byte {
 		}
 		return out
 	}
-	cand := []byte{0x00, orig ^ 1, orig ^ 0x80, '\n', '\r', '#', 'A', '/', '='}
+	cand := []byte{0x00, orig ^ 1, orig ^ 0x80, '\n', '\r', '#', 'A'}
 	var out []byte
 	seen := map[byte]bool{orig: true}
 	for _, c := range cand {
@@ -784,7 +784,7 @@ func phase3(logs []blog) {
 			jobs = append(jobs, job{b, c})
 		}
 	}
-	r.Sample(map[string]any{"phase": "P3 single-byte substitution", "lines": len(jobs), "values_quick": "0x00, b^1, b^0x80, LF, CR, '#', 'A', '/', '='", "values_thorough": "all 255 other byte values (in-memory stream) + the quick set on files"})
+	r.Sample(map[string]any{"phase": "P3 single-byte substitution", "lines": len(jobs), "values_quick": "0x00, b^1, b^0x80, LF, CR, '#', 'A' ('B' where the byte is 'A')", "values_thorough": "all 255 other byte values (in-memory stream) + the quick set on files"})
 	parFor(len(jobs), func(i int) {
 		b, c := jobs[i].b, jobs[i].line
 		d := <-dirPool
